@@ -124,9 +124,20 @@ def generate(seed, tier, enlarged=False):
                             deps_idx.append(x + 1)
                 extra = rng.sample(pool, min(len(pool), rng.randint(0, 2)))
                 st['reads'] = sorted(set(deps_idx + extra))
+            # a Step may also be listed in the `processes` dict, its flow entry still counting: done for some
+            # flow steps that nothing depends on
+            depended = {tuple(d) for st in steps for d in (st['deps'] or [])}
+            for st in steps:
+                if st['deps'] and rng.random() < 0.25 and not any(
+                        tuple(rel(o['path'][:-1], st['path'])) in {tuple(d) for d in (o['deps'] or [])} for o in steps):
+                    st['in_processes'] = True
             rng.shuffle(steps) if rng.random() < 0.5 else None
             cases.append({'kind': 'engine', 'steps': steps, 'nphases': rng.randint(1, 4),
                           'init': [rng.randint(0, 3) for _ in range(len(steps) + 1)]})
+    # steps whose dependencies change the STRUCTURE of the hierarchy: the live stream of C07
+    from harness import live
+    n_live = 40 if tier == 'quick' else 600
+    cases += [live.gen_case(rng) for _ in range(n_live)]
     return cases
 
 
@@ -219,16 +230,18 @@ def run_impl(c):
     from vivarium.core.engine import Engine
     del LOG[:]
     steps, flow, topology = {}, {}, {'ticker': {'vars': ('vars',)}}
+    processes = {'ticker': Ticker()}
     for st in c['steps']:
         p = st['path']
-        nest(steps, p, LogStep({'sid': st['write'], 'reads': st['reads'], 'write': st['write'], 'path': p}))
+        nest(processes if st.get('in_processes') else steps, p,
+             LogStep({'sid': st['write'], 'reads': st['reads'], 'write': st['write'], 'path': p}))
         if st['deps'] is not None:
             nest(flow, p, [tuple(d) for d in st['deps']])
         nest(topology, p, {'vars': tuple(['..'] * (len(p) - 1) + ['vars'])})
     init = {'vars': {'v%d' % i: v for i, v in enumerate(c['init'])}}
     try:
         with contextlib.redirect_stdout(io.StringIO()):
-            eng = Engine(processes={'ticker': Ticker()}, steps=steps, flow=flow, topology=topology,
+            eng = Engine(processes=processes, steps=steps, flow=flow, topology=topology,
                          initial_state=init, emitter={'type': 'verif_rec05'}, display_info=False)
             if c['nphases'] > 1:
                 eng.update(c['nphases'] - 1)
@@ -432,8 +445,24 @@ def stat_key(c, ob):
 
 
 def run(cases, tier='quick', seed=0):
-    return common.generic_run(__import__('harness.c05', fromlist=['x']), cases, seed, shard=100)
+    from harness import live
+    me = __import__('harness.c05', fromlist=['x'])
+
+    class Live:
+        __name__ = 'harness.live'
+        IMPORTS, CHECK_FN, BAD_TERM = live.IMPORTS, live.CHECK_FN, live.BAD_TERM
+        run_impl, render = staticmethod(live.run_impl), staticmethod(live.render)
+        # a step observes the effects of its dependencies (also their structural ones), and every step that
+        # exists when a phase begins runs exactly once in it
+        oracle = staticmethod(lambda c, ob, rng: live.oracle(c, ob, rng) + live.oracle_phases(c, ob, rng))
+        nontrivial, stat_key = staticmethod(live.nontrivial), staticmethod(live.stat_key)
+    return common.merge_streams(cases, [
+        (lambda c: c['kind'] != 'live', lambda cs: common.generic_run(me, cs, seed, shard=100)),
+        (lambda c: c['kind'] == 'live', lambda cs: common.generic_run(Live, cs, seed, shard=20))])
 
 
 def model_output(case, ob):
+    if case['kind'] == 'live':
+        from harness import live
+        return common.coq_eval('LIVE', live.IMPORTS, 'model_out_all %s' % live.render(case, ob))[:4000]
     return common.coq_eval('C05', IMPORTS, 'model_out %s' % render(case, ob))[:5000]
